@@ -376,9 +376,11 @@ impl<'source> Iterator for Lexer<'source> {
                     self.comment_depth += 1;
                     continue;
                 }
-                | Some((Ok(Tok::CommentClose), _)) => {
+                | Some((Ok(Tok::CommentClose), range)) => {
                     if self.comment_depth == 0 {
-                        break None;
+                        // An unmatched terminator is not the end of the input: hand it to
+                        // the parser, which has no production for it and reports it.
+                        break Some((range.start, Tok::CommentClose, range.end));
                     }
                     self.comment_depth -= 1;
                 }
